@@ -422,7 +422,7 @@ def _batches(rng, tier):
 
 
 MANIFEST = {
-    "level_text": ("Machine-checked proof (Lean 4, 99 theorems) over an executable model that mirrors the box headers index by index: for every dimension n "
+    "level_text": ("Machine-checked proof (Lean 4, 103 theorems) over an executable model that mirrors the box headers index by index: for every dimension n "
                    "and all integer coordinates, contains_point is membership in the half-open point set, the intersection's points are exactly "
                    "the common points and it is the null box when intersects is false, intersects <-> common point and contains <-> subset for "
                    "non-empty boxes, extend_bounding_box is the least box containing both (also accumulated over any list of boxes or points, in any "
